@@ -429,8 +429,10 @@ func (s *schemaBuilder) buildFromType(tpe types.Type, tgt swaggerTypable) error 
 				enumValues, enumDesces, _ := s.ctx.FindEnumValues(pkg, enumName)
 				if len(enumValues) > 0 {
 					tgt.WithEnum(enumValues...)
-					enumTypeName := reflect.TypeOf(enumValues[0]).String()
-					_ = swaggerSchemaForType(enumTypeName, tgt)
+					if enumValues[0] != nil { // nil: a literal that could not be read
+						enumTypeName := reflect.TypeOf(enumValues[0]).String()
+						_ = swaggerSchemaForType(enumTypeName, tgt)
+					}
 				}
 				if len(enumDesces) > 0 {
 					tgt.WithEnumDescription(strings.Join(enumDesces, "\n"))
